@@ -56,6 +56,8 @@ func genCLICases(rng *rand.Rand, tier string) []core.Case {
 		} else {
 			rows = pairwise(rng, len(cliFlags))
 		}
+		// the unusual --dry-run values run as a case of their own (no template combinations)
+		out = append(out, core.Case{ID: fmt.Sprintf("cli-%s-u", st), Data: core.J(caseData{Kind: "cli", Driver: "secrets", State: st, CSeed: rng.Int63()})})
 		chunk := 8
 		for i := 0; i < len(rows); i += chunk {
 			j := min(i+chunk, len(rows))
@@ -285,6 +287,9 @@ func runCLI(c core.Case, d caseData, verbose bool) core.Result {
 		ledAfter, bad := w.Ledger(relName)
 		res.Evals++
 		res.Stat("cli_dry_ops_"+what, 1)
+		if oerr != nil && (strings.Contains(oerr.Error(), "Invalid dry-run flag") || strings.Contains(oerr.Error(), "invalid argument")) {
+			res.Stat("cli_invocations_refused_for_their_dry_run_value", 1)
+		}
 		for cl, n := range o.byClass {
 			res.Stat("dry_requests_inspected_"+cl, int64(n))
 		}
@@ -414,6 +419,61 @@ func runCLI(c core.Case, d caseData, verbose bool) core.Result {
 		judge("rollback", "bare", "--no-hooks --force", []string{"rollback", relName, "--dry-run", "--no-hooks", "--force", "--timeout", "5s"}, false, false, controlWrote)
 		judge("uninstall", "bare", "", []string{"uninstall", relName, "--dry-run", "--timeout", "5s"}, false, false, controlWrote)
 		judge("uninstall", "bare", "--keep-history --no-hooks", []string{"uninstall", relName, "--dry-run", "--keep-history", "--no-hooks", "--timeout", "5s"}, false, false, controlWrote)
+	}
+	// ---- unusual --dry-run values (mixed case, blanks, other words). Whatever helm does with such a
+	// value - refuse it, or take it for a dry run - a command whose value is not one of the
+	// documented NON-dry spellings (flag absent, none, false; an explicitly empty value is turned
+	// into "none" by install/upgrade) must not write. Refused invocations are trivially silent; they
+	// are counted. Case variants of the non-dry words (False, None) and the empty value are run last
+	// and only counted: treating them as "not a dry run" is legitimate.
+	if strings.HasSuffix(c.ID, "-u") && d.Only == "" {
+		nBefore := len(res.Violations)
+		unusual := func(what, val string, args []string, clientOnly bool) {
+			from := w.Sim.Tick()
+			n := len(res.Violations)
+			judge(what, val, "unusual value", args, clientOnly, false, controlWrote)
+			res.Stat("cli_unusual_value_ops", 1)
+			if o := window(w, from, ""); len(o.all) == 0 && len(res.Violations) == n {
+				res.Stat("cli_unusual_value_ops_without_any_request", 1)
+			}
+		}
+		for _, val := range []string{"Server", "SERVER", "Client", "True", "TRUE", " server", "yes", "1", "cLiEnT"} {
+			dv := "--dry-run=" + val
+			unusual("template", val, []string{"template", relName, chartDir, dv, "--timeout", "5s"}, true)
+			unusual("template", val, []string{"template", relName, chartDir, dv, "--validate", "--create-namespace", "--timeout", "5s"}, false)
+			unusual("install", val, []string{"install", relName, chartDir, dv, "--replace", "--timeout", "5s"}, false)
+			unusual("install-other-name", val, []string{"install", "fresh3", chartDir, dv, "--create-namespace", "--timeout", "5s"}, false)
+			unusual("upgrade", val, []string{"upgrade", relName, chartDir, dv, "--timeout", "5s"}, false)
+			unusual("upgrade", val, []string{"upgrade", relName, chartDir, dv, "--install", "--reuse-values", "--timeout", "5s"}, false)
+			unusual("upgrade-install", val, []string{"upgrade", "--install", "fresh4", chartDir, dv, "--create-namespace", "--timeout", "5s"}, false)
+		}
+		// rollback / uninstall: --dry-run is a boolean flag; every spelling strconv.ParseBool takes for true is a dry run
+		for _, val := range []string{"True", "TRUE", "1", "t", "T", "yes", "Server"} {
+			dv := "--dry-run=" + val
+			unusual("rollback", val, []string{"rollback", relName, "1", dv, "--timeout", "5s"}, false)
+			unusual("uninstall", val, []string{"uninstall", relName, dv, "--timeout", "5s"}, false)
+		}
+		res.Stat("cli_unusual_value_violations", int64(len(res.Violations)-nBefore))
+		// not judged, only counted (they may legitimately write); run last because they change the world
+		for _, val := range []string{"False", "None", ""} {
+			for _, args := range [][]string{
+				{"upgrade", relName, chartDir, "--dry-run=" + val, "--timeout", "5s"},
+				{"install", "fresh5" + strings.ToLower(val), chartDir, "--dry-run=" + val, "--timeout", "5s"},
+			} {
+				from := w.Sim.Tick()
+				var oerr error
+				core.Guard(&res, "cli non-dry-equivalent value", func() { _, oerr = ce.helm(args...) })
+				o := window(w, from, "")
+				res.Evals++
+				res.Stat("cli_nondry_equivalent_value_ops", 1)
+				if len(o.mutations)+len(o.stWrites) > 0 {
+					res.Stat("cli_nondry_equivalent_value_ops_that_wrote", 1)
+				}
+				if verbose {
+					fmt.Printf("    (not judged) helm %s -> err=%s requests=%v\n", strings.Join(args, " "), errStr(oerr), o.byClass)
+				}
+			}
+		}
 	}
 	res.Stat("cli_protobuf_bodies_transcoded", *transcoded)
 	if strings.HasSuffix(c.ID, "-0") {
